@@ -34,7 +34,7 @@ impl Command for Cap {
     }
 }
 
-const WRAPPERS: [&str; 7] = ["not", "if", "elseif", "while", "alias", "alias1", "eval"];
+const WRAPPERS: [&str; 9] = ["not", "if", "elseif", "while", "alias", "alias1", "eval", "alias2", "aliasjump"];
 const HIST_WRAPPERS: [&'static str; 5] = ["hist:not", "hist:if", "hist:while", "hist:alias", "hist:eval"];
 
 /// mirror of `Reser.Safe` / `firstOK` / `lastOK` (cross-checked against the model on every
@@ -94,6 +94,12 @@ fn script(wrapper: &str, n: usize) -> String {
                 format!("alias mycap cap ${{a0}}\nmycap{}", arg_refs(1, n))
             }
         }
+        // an alias of an alias, the inner one re-defined in between: the outer alias resolves the
+        // inner NAME when it is called (two passes through the rebuilt line)
+        "alias2" => format!("alias mid cap OLD\nalias outer mid\nunalias mid\nalias mid cap\nouter{}", all),
+        // an alias of a command that answers with a jump: the jump is the alias's result
+        // (`cap SKIPPED` must not run, `cap AFTER` must)
+        "aliasjump" => format!("alias myjump capjump\nmyjump{}\ncap SKIPPED\n:c09target\ncap AFTER", all),
         _ => format!("eval cap{}", all),
     };
     format!("cap{}\n{}\n", all, wrapped)
@@ -107,11 +113,30 @@ fn enc_recv(calls: &[Vec<String>]) -> String {
     }
 }
 
+/// like `cap`, but answers with a jump to the label `:c09target`
+#[derive(Clone)]
+struct CapJump {
+    seen: Rc<RefCell<Vec<Vec<String>>>>,
+}
+impl Command for CapJump {
+    fn name(&self) -> String {
+        "capjump".to_string()
+    }
+    fn clone_and_box(&self) -> Box<dyn Command> {
+        Box::new(self.clone())
+    }
+    fn run(&self, ctx: CommandInvocationContext) -> CommandResult {
+        self.seen.borrow_mut().push(ctx.arguments.clone());
+        CommandResult::GoTo(None, duckscript::types::command::GoToValue::Label(":c09target".to_string()))
+    }
+}
+
 /// run the real interpreter: returns (direct calls, wrapped calls) of `cap`
 fn run_real(vars: &[(String, String)], vals: &[String], wrapper: &str) -> Option<(Vec<Vec<String>>, Vec<Vec<String>>)> {
     let seen = Rc::new(RefCell::new(vec![]));
     let mut ctx = crate::sdkenv::sdk_context();
     ctx.commands.set(Box::new(Cap { seen: seen.clone() })).unwrap();
+    ctx.commands.set(Box::new(CapJump { seen: seen.clone() })).unwrap();
     for (k, v) in vars {
         ctx.variables.insert(k.clone(), v.clone());
     }
@@ -129,6 +154,21 @@ fn run_real(vars: &[(String, String)], vals: &[String], wrapper: &str) -> Option
     let s = seen.borrow();
     if s.is_empty() {
         return Some((vec![], vec![]));
+    }
+    if wrapper == "aliasjump" && s.len() >= 2 {
+        // the jump was taken iff the last call is `cap AFTER` and `cap SKIPPED` never ran; then
+        // only the call through the alias counts as "wrapped"
+        let after = s.last() == Some(&vec!["AFTER".to_string()]);
+        let skipped = s[1..].iter().any(|c| *c == vec!["SKIPPED".to_string()]);
+        let mid: Vec<Vec<String>> = s[1..s.len() - 1].iter().filter(|c| **c != vec!["SKIPPED".to_string()]).cloned().collect();
+        if after && !skipped {
+            return Some((vec![s[0].clone()], mid));
+        }
+        if in_domain(vals) || (after && skipped && mid.len() == 1) {
+            // the alias ran but its jump was lost
+            return Some((vec![s[0].clone()], vec![vec!["JUMP-NOT-TAKEN".to_string()]]));
+        }
+        return Some((vec![s[0].clone()], mid));
     }
     Some((vec![s[0].clone()], s[1..].to_vec()))
 }
@@ -361,7 +401,8 @@ impl Prop for C09Prop {
 // ---------------------------------------------------------------------------------------------
 
 /// values a predicate may yield (truthy / falsy / with line breaks or blanks around a falsy word)
-const OUTS: [&str; 16] = ["true", "false", "0", "1", "no", "", "abc", " ", "FALSE", "No", "0\n", "false\r\n", "\n", "no\n", " 0", "yes\n"];
+// (operator words and parentheses are plain truthy VALUES when a command yields them)
+const OUTS: [&str; 22] = ["true", "false", "0", "1", "no", "", "abc", " ", "FALSE", "No", "0\n", "false\r\n", "\n", "no\n", " 0", "yes\n", "and", "or", "(", ")", "AND", "( )"];
 
 /// `fn p` whose body runs `q = set ${o}` (so the LAST body command yields `${o}`) and then ends
 /// by falling off its end, by a bare `return`, or by `return ${r}`; the program calls it directly
